@@ -95,14 +95,31 @@ mod replay {
     pub static mut PATTERN: u32 = 0;
     pub static mut GEN: u64 = 0;
 
+    fn lcg() -> u64 {
+        unsafe {
+            GEN = GEN.wrapping_mul(6364136223846793005).wrapping_add(1442695040888963407 ^ ((PATTERN as u64) << 32));
+            GEN >> 33
+        }
+    }
+    /// one byte of symbolic data (payload bytes, flags)
     fn gen_byte() -> u8 {
         unsafe {
-            GEN = GEN.wrapping_add(1);
             match PATTERN {
                 1 => 0,
-                2 => GEN as u8,
+                2 => { GEN = GEN.wrapping_add(1); GEN as u8 }
                 3 => 0xFF,
-                _ => { let x = GEN.wrapping_mul(6364136223846793005).wrapping_add(1442695040888963407); (x >> 33) as u8 }
+                _ => lcg() as u8,
+            }
+        }
+    }
+    /// a multi-byte integer (lengths, counts, indices): small values, harness assumptions usually bound them tightly
+    fn gen_small() -> u64 {
+        unsafe {
+            match PATTERN {
+                1 => 0,
+                2 => { GEN = GEN.wrapping_add(1); GEN % 5 }
+                3 => 1,
+                p => { let m = [2u64, 3, 5, 7, 8, 9, 13, 17][(p as usize) % 8]; lcg() % m }
             }
         }
     }
@@ -111,8 +128,10 @@ mod replay {
         unsafe {
             if PATTERN != 0 {
                 let mut v = Vec::new();
+                if want == 1 { v.push(gen_byte()); return v; }
+                let x = gen_small().to_le_bytes();
                 let mut i = 0;
-                while i < want { v.push(gen_byte()); i += 1; }
+                while i < want { v.push(if i < 8 { x[i] } else { 0 }); i += 1; }
                 return v;
             }
             if NEXT >= VALS.len() {
